@@ -84,6 +84,29 @@ def run(ctx):
                                   name, arm, n, delta[0], delta[1], delta[2], delta[3], mask, config),
                               {"kind": "input", "case": "safe " + c[:4000], "build": config, "observed": a[:500],
                                "expected": "panic assert"})
+        # earlier calls: the documented calls again, in REVERSED order and few long-lived processes (DIMS descending): a routine
+        # that remembers anything about an earlier call with a larger DIMS / length walks off a shorter, guard-paged slice
+        doc = [(c, m) for c, m in zip(cases, meta) if m[4] == (0, 0, 0, 0)][::-1]
+        imp2 = runner.impl("safe", [c for c, _ in doc], config=config, nshards=2)
+        nrev = 0
+        for (c, m), a in zip(doc, imp2):
+            sidx, s, form, n, delta, mask = m
+            if a is None or a.startswith("signal") or "CANARY" in a or "INPUT-MODIFIED" in a:
+                nrev += 1
+                if nrev > 3:
+                    continue
+                name = s["const"] if form == "c" else s["any"]
+                arm = "%s:%s" % (s["macro"], "const" if form == "c" else "any")
+                ctx.violation("safe-oob-after-earlier-calls:" + arm,
+                              "safe routine %s (macro arm %s), documented call with n=%d, mask %d, %s build, issued after other documented "
+                              "calls (lengths descending) in the same process: %s" % (
+                                  name, arm, n, mask, config, "crashed on a guard page (out-of-bounds access)"
+                                  if (a is None or a.startswith("signal")) else "touched memory outside its slices"),
+                              {"kind": "history", "case": "safe " + c[:4000], "build": config, "observed": a,
+                               "sequence": "the documented calls of this run in reversed order, two processes (stride 2)"})
+        ctx.cover(len(doc), distinct_keys=["rev|%s|%d" % (config, hash(c)) for c, _ in doc],
+                  rule="documented safe calls re-issued in reversed order (lengths / DIMS descending) in two long-lived processes, %s build: "
+                       "no crash, no canary damage" % config, dist={"reversed_" + config: len(doc)})
     # which broken proof obligations do the concrete findings explain?
     keys = {v["key"] for v in ctx.violations}
     for b in ctx.broken:
